@@ -265,7 +265,7 @@ theorem Rel.dropTid {cfg : Cfg} {st : St} {t : Track} (h : Rel cfg st t) (tid : 
   · intro tid' b tps hp
     have a := h.retrying tid' b tps hp
     refine ⟨List.mem_filter.mpr ⟨a.tid, ?_⟩, a.res, ⟨a.br.tps, a.br.nodup, a.br.live, a.br.lastP, a.br.prod, a.br.chain1⟩,
-      a.chain, a.att, a.sub, a.nodup, a.nostop, a.ne, a.al⟩
+      a.chain, a.att, a.sub, a.nodup, a.nostop, a.ne, a.al, a.prev⟩
     simp only [decide_eq_true_eq]
     intro hc; subst hc; exact hne b tps hp
 
@@ -617,6 +617,30 @@ theorem retry_covers (b : Batch) (r : ProdRes) (acct : Bool) (hlive : ∀ tp ∈
     · exact Or.inr (resp_case rs rfl resp hr hrt)
     · exact Or.inl (List.mem_map.mpr ⟨f, hf, by rw [hft, hgt]⟩)
 
+/-- what is retried was in the attempt: the payloads a valid result names are the request's, and the
+    unacknowledged rest (a total failure) was all in the attempt if every result accounted -/
+theorem retry_sub (b : Batch) (r : ProdRes) (hv : validResult b r = true)
+    (hal : acct = true → ∀ tp ∈ (b.popAcked (respsOf r)).live, tp ∈ b.current) (ha : acct = true) :
+    ∀ tp ∈ failedTps (b.popAcked (respsOf r)).live r, tp ∈ b.current := by
+  simp only [validResult, Bool.and_eq_true, List.all_eq_true, decide_eq_true_eq] at hv
+  obtain ⟨hin, _⟩ := hv
+  intro tp htp
+  cases r with
+  | none => simp [failedTps] at htp
+  | err k => exact hal ha tp (by simpa [failedTps] using htp)
+  | responses rs =>
+    simp only [failedTps] at htp
+    obtain ⟨x, hx, hxt⟩ := List.mem_map.mp htp
+    exact hin tp (by simp only [ProdRes.tps]; exact List.mem_map.mpr ⟨x, (List.mem_filter.mp hx).1, hxt⟩)
+  | failed rs fs =>
+    simp only [failedTps, List.mem_append] at htp
+    apply hin tp
+    simp only [ProdRes.tps, List.mem_append]
+    rcases htp with h | h
+    · exact Or.inl h
+    · obtain ⟨x, hx, hxt⟩ := List.mem_map.mp h
+      exact Or.inr (List.mem_map.mpr ⟨x, (List.mem_filter.mp hx).1, hxt⟩)
+
 /-- the summary right after an effective completion event for the request in flight -/
 def completedTrack (t : Track) (ps : List Payload) (r : ProdRes) : Track :=
   { t with curRes := some r, acct := t.acct && accounts ps r,
@@ -658,8 +682,11 @@ theorem rel_handled (cfg : Cfg) (s : St) (t : Track) (e : Ev) (rid : Rid) (b : B
     · intro tid' b' tps' hp
       rw [d1] at hp; injection hp with e1 e2 e3; subst e1; subst e2; subst e3
       refine ⟨List.mem_cons_self, ⟨r, rfl, by rw [← hlive]⟩, ⟨a.br.tps, a.br.nodup, hlive, a.br.lastP, a.br.prod, a.br.chain1⟩,
-        by rw [d3]; exact a.chain, by rw [d3]; exact d4, g1, g2, by rw [hstat.2.1]; exact d5, d2, ?_⟩
-      exact retry_covers b r t.acct (fun tp htp => a.br.live_sub tp htp) a.al d2
+        by rw [d3]; exact a.chain, by rw [d3]; exact d4, g1, g2, by rw [hstat.2.1]; exact d5, d2, ?_, ?_⟩
+      · exact retry_covers b r t.acct (fun tp htp => a.br.live_sub tp htp) a.al d2
+      · refine ⟨rid, b.current, a.cur, ?_⟩
+        intro hacc tp htp
+        exact retry_sub b r hv (fun hx tp htp => a.al hx tp ((List.mem_filter.mp htp).1)) (by simp only [Bool.and_eq_true] at hacc; exact hacc.1) tp htp
     · intro hq; rcases hq with hq | ⟨ls, hq⟩ <;> (rw [d1] at hq; cases hq)
     · intro x hx
       rw [d7]
